@@ -15,6 +15,10 @@ MCSpec == MCInit /\ [][MCNext]_vars
 \* weak fairness of every worker: every request is eventually granted and every coroutine finishes
 FairSpec == MCSpec /\ \A w \in Wrk : WF_vars(MCStep /\ ev'.p = w)
 EventuallyQuiescent == <>Quiescent
+\* the protocol alone (no happens-before bookkeeping): cheap enough for the quick tier
+PStep == Step /\ UNCHANGED mm
+PSpec == MCInit /\ [][PStep \/ (Quiescent /\ UNCHANGED vars)]_vars
+FairP == PSpec /\ \A w \in Wrk : WF_vars(PStep /\ ev'.p = w)
 
 NoRace == MM!NoRace(mm)
 NoStuck == (~ENABLED MCStep) => Quiescent
